@@ -185,6 +185,11 @@ class C01(CheckBase):
             else:
                 arg = ':%d%s.%s' % (drive, lab, nm) if not (len(nm) > 2 and nm[1] == '.') else ':%d%s.%s.%s' % (drive, lab, d, nm)
                 g = ['--dir', d]
+            # the presentation style has no bearing on which file is read or how type/list/dump render it; it is one
+            # more global option, given before or after the ones that set the context
+            if rng.chance(0.25):
+                k = 2 * rng.below(len(g) // 2 + 1)
+                g = g[:k] + ['--ui', rng.choice(['acorn', 'watford', 'opus'])] + g[k:]
             cmd = {'type-binary': ['type', '--binary', arg], 'type': ['type', arg], 'list': ['list', arg], 'dump': ['dump', arg]}[cmdk]
             argv = ['dfs', '--file', name] + g + cmd
             want = RENDER[cmdk](body)
